@@ -98,6 +98,21 @@ where
     FrameFn: FnOnce(&str, u32) -> T2 + Sync,
     T2: Future<Output = Result<FrameIO, Error>>,
 {
+    if let Err(e) = h11c_request(&ctx, create_frames).await {
+        // the connection is registered already: close its record with an error state
+        warn!("handshake failed: {}: cause: {:?}", e, e.cause);
+        ctx.on_error(e).await;
+        return Ok(());
+    }
+    ctx.enqueue(&queue).await?;
+    Ok(())
+}
+
+async fn h11c_request<FrameFn, T2>(ctx: &ContextRef, create_frames: FrameFn) -> Result<(), Error>
+where
+    FrameFn: FnOnce(&str, u32) -> T2 + Sync,
+    T2: Future<Output = Result<FrameIO, Error>>,
+{
     // read the request before locking the connection: a client that stalls here must not keep the connection locked
     let mut socket = ctx.write().await.take_client_stream();
     let request = HttpRequest::read_from(&mut socket).await?;
@@ -150,8 +165,6 @@ where
         bail!("Invalid request method: {}", request.method);
     }
     trace!("Request: {:?}", ctx_lock);
-    drop(ctx_lock);
-    ctx.enqueue(&queue).await?;
     Ok(())
 }
 
